@@ -1057,8 +1057,13 @@ def leg_hist(ctx, cases, tag="hist", shrink=True):
                                  f"model and implementation differ at step {step}: {o.get('obs', o)} on {hist_payload(c)}"[:1500],
                                  dict(case=hist_payload(c), observed=o)))
     best = {}
+    # a history whose FIRST evaluation (fresh object) is already wrong says nothing about history dependence: it is
+    # reported as the plain problem.fitness violation it is, its later steps are not reported separately
+    fresh_bad = {id(c) for (c, o), step in viol if hist_class(c, o, step) == "fresh"}
     for (c, o), step in viol:
         cls = hist_class(c, o, step)
+        if id(c) in fresh_bad and cls != "fresh":
+            continue
         if cls == "fresh":
             # the very first evaluation on the new object is already wrong: a plain problem.fitness violation
             fc = hist_fit_case(c, c["ops"][step])
